@@ -414,6 +414,8 @@ def run(ctx):
     _entry_point_rules(ctx, repo)
     _phased_xz_qasm(ctx, repo)
     _conditional_lines(ctx, repo)
+    _sympy_condition_bits(ctx, repo)
+    _measure_bit_positions(ctx, repo)
 
 
 def _entry_point_rules(ctx, repo):
@@ -607,3 +609,115 @@ def _conditional_lines(ctx, repo):
                f'a sub-operation exported as {k} statement(s) {sub!r} yields {out!r}: ' + ('statements after the first run unconditionally' if k > 1 else
                                                                                           'a dangling `if` captures whatever statement follows' if k == 0 else 'the condition is lost'),
                ci.mod.rel, fn.lineno)
+
+
+def _sympy_condition_bits(ctx, repo):
+    """C19.h - `key == constant` conditions compare the same bits in QASM as in Cirq."""
+    ctx.decided.append('C19.h SympyCondition export: for a register of n bits written as measure q[i] -> m_key[i], the constant in `m_key==w` has bit i (little-endian) equal to the i-th '
+                       'big-endian bit of the Cirq constant, for every constant of every width 1..3')
+    ctx.rule('C19.h', 'condition constant in register bit order: interpreting SympyCondition._qasm_ (and the qasm property it uses) for key a, widths n = 1..3 and every v < 2**n, the emitted '
+             'constant w satisfies (w >> i) & 1 == i-th most significant of the n bits of v', floor=14, style='FDX')
+    ci = repo.cls('cirq.value.condition.SympyCondition')
+    found = repo.find_method(ci, '_qasm_')
+    if found is None:
+        raise AnalysisError('SympyCondition._qasm_ vanished')
+    fn = found[1]
+    prop = ci.methods.get('qasm')
+
+    class Sym:
+        def __init__(self, name):
+            self.name = name
+
+        def __str__(self):
+            return self.name
+
+        def __format__(self, spec):
+            return self.name
+
+    class Int(int):
+        pass
+
+    class Eq:
+        def __init__(self, lhs, rhs):
+            self.lhs, self.rhs = lhs, rhs
+
+    class Args:
+        def __init__(self, n):
+            self.meas_key_bitcount = {'m_a': n}
+            self.meas_key_id_map = {'a': 'm_a'}
+            self.version = '2.0'
+
+        def validate_version(self, *a):
+            return None
+
+    class Me:
+        pass
+    for n in (1, 2, 3):
+        for v in range(2 ** n):
+            me = Me()
+            me.expr = Eq(Sym('a'), Int(v))
+
+            def attr_hook(node, it):
+                try:
+                    o = it.ev(node.value)
+                except fdx.Unsupported:
+                    return NotImplemented
+                if isinstance(o, Me) and node.attr == 'qasm' and prop is not None:
+                    sub = fdx.NumInterp({'self': o}, call_hook=call_hook, attr_hook=attr_hook)
+                    sub.builtins.update({'int': int, 'str': str, 'format': format})
+                    return sub.call(prop)
+                if isinstance(o, (Me, Eq, Args, Sym)) and hasattr(o, node.attr):
+                    return getattr(o, node.attr)
+                return NotImplemented
+
+            def call_hook(call, it):
+                if ast.unparse(call.func) == 'isinstance':
+                    t = ast.unparse(call.args[1])
+                    o = it.ev(call.args[0])
+                    if 'Equality' in t or t.endswith('.Eq'):
+                        return isinstance(o, Eq)
+                    if 'Symbol' in t:
+                        return isinstance(o, Sym)
+                    if 'Integer' in t:
+                        return isinstance(o, Int)
+                return NotImplemented
+            params = [a.arg for a in fn.args.args]
+            it = fdx.NumInterp({params[0]: me, params[1]: Args(n)}, call_hook=call_hook, attr_hook=attr_hook)
+            it.builtins.update({'int': int, 'str': str, 'format': format})
+            try:
+                out = it.call(fn)
+            except (fdx.Unsupported, fdx.Raised) as ex:
+                raise AnalysisError(f'cannot interpret SympyCondition._qasm_: {ex}')
+            mt = re.fullmatch(r'm_a==(\d+)', out or '')
+            ok = False
+            if mt:
+                w = int(mt.group(1))
+                ok = all(((w >> i) & 1) == ((v >> (n - 1 - i)) & 1) for i in range(n))
+            ctx.ob('C19.h', f'{ci.qual}._qasm_:bits={n}:value={v}', ok, '' if ok else
+                   f'a == {v} on a {n}-bit key (Cirq: first measured qubit is the most significant bit) is exported as `{out}`; with measure q[i] -> m_a[i] a QASM reader compares other '
+                   'bits than Cirq does', ci.mod.rel, fn.lineno)
+
+
+def _measure_bit_positions(ctx, repo):
+    """Companion of C19.h: measured qubit i goes to bit i of the register (the layout the condition constants rely on)."""
+    ci = repo.cls('cirq.ops.measurement_gate.MeasurementGate')
+    fn = repo.method(ci.qual, '_qasm_')
+    loops = [l for l in ast.walk(fn) if isinstance(l, ast.For) and isinstance(l.iter, ast.Call) and call_name(l.iter) == 'enumerate'
+             and any(isinstance(x, ast.Name) and x.id == 'qubits' for x in ast.walk(l.iter)) and isinstance(l.target, ast.Tuple) and len(l.target.elts) == 2]
+    if not loops:
+        raise AnalysisError('MeasurementGate._qasm_: the enumerate(qubits) loop vanished')
+    lp = loops[0]
+    idx = lp.target.elts[0].id if isinstance(lp.target.elts[0], ast.Name) else None
+    t1 = lp.target.elts[1]
+    qn = t1.elts[0].id if isinstance(t1, ast.Tuple) and isinstance(t1.elts[0], ast.Name) else t1.id if isinstance(t1, ast.Name) else None
+    k = 0
+    for c in ast.walk(lp):
+        if isinstance(c, ast.Call) and isinstance(c.func, ast.Attribute) and c.func.attr == 'format' and c.args and isinstance(c.args[0], ast.Constant) \
+                and isinstance(c.args[0].value, str) and 'measure' in c.args[0].value and '{2}' in c.args[0].value:
+            k += 1
+            a = c.args[1:]
+            ok = len(a) == 3 and isinstance(a[0], ast.Name) and a[0].id == qn and isinstance(a[2], ast.Name) and a[2].id == idx
+            ctx.ob('C19.h', f'{ci.qual}._qasm_:bit-position#{k}', ok, '' if ok else
+                   f'`{ast.unparse(c)[:80]}`: the register index is not the position of the measured qubit in the operation', ci.mod.rel, c.lineno)
+    if k == 0:
+        raise AnalysisError('MeasurementGate._qasm_: no measure statement found')
